@@ -208,6 +208,9 @@ func runC20(c *Ctx) {
 				if overlap {
 					problems = append(problems, "typed monitor callbacks overlapped")
 				}
+				if len(hl) == 0 || hl[0].what != "init" {
+					problems = append(problems, "typed monitor: OnInitialize was not invoked")
+				}
 				var cbs [][2]int
 				for i, h := range hl {
 					if h.what == "init" {
@@ -272,8 +275,124 @@ func runC20(c *Ctx) {
 			}
 		}
 	}
+	// edge scenarios per package: an initially empty collection (OnInitialize
+	// still runs, with nothing) and a burst nobody reads (the typed adapter
+	// drops exactly what the untyped subscription drops)
+	for pi, pkg := range typedPkgs {
+		var problems []string
+		what := "types/" + pkg.name + ": empty initial collection, then a burst of 250 events that nobody reads"
+		c.Now(what)
+		dl := sched.Bubble(c.T, func() {
+			srv := fakeapi.New()
+			srv.Kind = pkg.kind
+			pert := sched.NewPerturb(c.Seed+int64(pi), pi%3)
+			ctx, cancel := context.WithCancel(context.Background())
+			defer cancel()
+			tc, err := pkg.build(ctx, pert.Log(), fakeClient(srv))
+			if err != nil {
+				problems = append(problems, "BuildController failed: "+err.Error())
+				return
+			}
+			uc, err := kcache.NewController(ctx, pert.Log(), fakeClient(srv))
+			if err != nil {
+				problems = append(problems, "NewController failed: "+err.Error())
+				return
+			}
+			var ts *tsub
+			var um *mirror
+			defer func() {
+				pert.SetLevel(0)
+				tc.closeFn()
+				uc.Close()
+				sched.Settle()
+				if ts != nil && ts.end != nil {
+					<-ts.end
+				}
+				if um != nil {
+					<-um.stopped
+				}
+			}()
+			tmon := &node{id: 1, kind: nMonitor}
+			umon := &node{id: 2, kind: nMonitor}
+			m, err := tc.monitor(tmon)
+			if err != nil {
+				problems = append(problems, "typed NewMonitor failed: "+err.Error())
+				return
+			}
+			tmon.mon = m
+			if um2, err := kcache.NewMonitor(uc, umon.handler()); err == nil {
+				umon.mon = um2
+			}
+			pert.Barrier()
+			show := func(hl []hrec) string {
+				var r []string
+				for _, h := range hl {
+					r = append(r, fmt.Sprintf("%s%v", h.what, h.ids))
+				}
+				return fmt.Sprint(r)
+			}
+			thl, _ := tmon.handlerLog()
+			uhl, _ := umon.handlerLog()
+			if show(thl) != show(uhl) {
+				problems = append(problems, fmt.Sprintf("empty initial collection: typed monitor callbacks %s, untyped %s", show(thl), show(uhl)))
+			}
+			srv.Put(proto(pkg.kind, 1, 1, 0))
+			pert.Barrier()
+			thl, _ = tmon.handlerLog()
+			uhl, _ = umon.handlerLog()
+			if show(thl) != show(uhl) {
+				problems = append(problems, fmt.Sprintf("after the first object: typed monitor callbacks %s, untyped %s", show(thl), show(uhl)))
+			}
+			m.Close()
+			umon.mon.Close()
+			// a burst nobody reads
+			tsubPaused = true
+			ts, err = tc.subscribe()
+			tsubPaused = false
+			if err != nil {
+				problems = append(problems, "typed Subscribe failed: "+err.Error())
+				return
+			}
+			us, _ := uc.Subscribe()
+			pert.Barrier()
+			for k := 0; k < 250; k++ {
+				srv.Put(proto(pkg.kind, 1+k%2, 1+k%3, k%6))
+				if k%20 == 19 {
+					pert.Barrier()
+				}
+			}
+			pert.Barrier()
+			ts.start()
+			um = newMirror(us, nil)
+			pert.Barrier()
+			uevs, _, _ := um.snapshot()
+			if got := ts.received(); fmt.Sprint(got) != fmt.Sprint(uevs) {
+				problems = append(problems, fmt.Sprintf("after a burst of 250 unread events the typed subscription delivers %d events, the untyped one %d (typed %v..., untyped %v...)", len(got), len(uevs), head2(got), head2(uevs)))
+			}
+			tc.closeFn()
+			pert.SetLevel(0)
+			sched.Settle()
+			ts.mu.Lock()
+			cl := ts.closed
+			ts.mu.Unlock()
+			if !cl {
+				problems = append(problems, "the typed subscription's Events() channel is not closed after the controller's Close()")
+			}
+		})
+		runs++
+		c.Rep.Evaluations++
+		replay := map[string]interface{}{"scenario": what}
+		if dl != "" {
+			replay["deadlock"] = dl
+			c.Violation("", "hang (bubble deadlock): "+what, replay)
+		}
+		for _, p := range problems {
+			c.Violation("", "types/"+pkg.name+": "+p, replay)
+		}
+		c.DistinctCase(what)
+	}
 	restCheck(c)
-	c.Rep.Rule = "all 12 typed packages: the same seeded scenario (objects of the package's type created, changed, deleted; objects of ANOTHER type injected on the watch) run on a typed controller (BuildController) and on an untyped kcache controller side by side against one fake API server in virtual time: typed cache / filtered-subscription cache / subscription events / filtered-subscription events / monitor callbacks = the untyped ones restricted to the type (foreign objects skipped, never nil, same order), Get, readiness, Close; the typed cache vs the extracted typed_list. Source level: harness/cmd/gentokens tokenizes template and generated files and the Coq kernel checks instantiate(template) = generated for the 12 packages and executed-join-template = generated join for the 8 joins (20 per-run obligations). REST: every typed NewClient against a loopback HTTP API server, with and without namespace: path and query of list and watch. Non-trivial = every (package, scenario)."
+	c.Rep.Rule = "all 12 typed packages: the same seeded scenario (objects of the package's type created, changed, deleted; objects of ANOTHER type injected on the watch) run on a typed controller (BuildController) and on an untyped kcache controller side by side against one fake API server in virtual time: typed cache / filtered-subscription cache / subscription events / filtered-subscription events / monitor callbacks = the untyped ones restricted to the type (foreign objects skipped, never nil, same order), Get, readiness, Close; the typed cache vs the extracted typed_list; per package an initially empty collection (typed monitor callbacks = untyped ones, OnInitialize with nothing included) and a burst of 250 events nobody reads (typed subscription delivers what the untyped one delivers; Events() closed after Close). Source level: harness/cmd/gentokens tokenizes template and generated files and the Coq kernel checks instantiate(template) = generated for the 12 packages and executed-join-template = generated join for the 8 joins (20 per-run obligations). REST: every typed NewClient against a loopback HTTP API server, with and without namespace: path and query of list and watch. Non-trivial = every (package, scenario)."
 	c.Rep.Stats["runs"] = runs
 }
 
@@ -281,6 +400,13 @@ func runC20(c *Ctx) {
 // REST paths
 
 type restReq struct{ path, query string }
+
+func head2(l [][2]int) [][2]int {
+	if len(l) > 3 {
+		return l[:3]
+	}
+	return l
+}
 
 func restCheck(c *Ctx) {
 	var mu sync.Mutex
